@@ -25,7 +25,6 @@ import (
 	"os"
 	"os/exec"
 	"path/filepath"
-	"sort"
 	"strconv"
 	"strings"
 	"sync"
@@ -1121,12 +1120,390 @@ func main() {
 
 // ------------------------------------------------------------------------------------------------ crash runs (real fsbinlog, SIGKILL)
 
-var _ = bufio.NewReader
-var _ = exec.Command
-var _ = strconv.Itoa
-var _ = syscall.SIGKILL
-var _ = sort.Ints
-var _ = fsbinlog.AddPadding
+const fsMagic = 0xc17
 
-func childMain(h *verifx.H)                          {}
-func runCrashCase(h *verifx.H, i int, r *verifx.Rng) {}
+func fsOptions(dir string, readAndExit bool) fsbinlog.Options {
+	return fsbinlog.Options{PrefixPath: filepath.Join(dir, "bl"), Magic: fsMagic, ReadAndExit: readAndExit}
+}
+
+func openReal(dir string, wait bool, commitEvery time.Duration) (*sqlite.Engine, error) {
+	opt := fsOptions(dir, false)
+	if _, err := os.Stat(opt.PrefixPath + ".000000.bin"); err != nil {
+		if _, err := fsbinlog.CreateEmptyFsBinlog(opt); err != nil {
+			return nil, err
+		}
+	}
+	bl, err := fsbinlog.NewFsBinlog(nil, opt)
+	if err != nil {
+		return nil, err
+	}
+	mode := sqlite.NoWaitCommit
+	if wait {
+		mode = sqlite.WaitCommit
+	}
+	return sqlite.OpenEngine(sqlite.Options{Path: filepath.Join(dir, "db"), APPID: 0xc17, Scheme: schema, DurabilityMode: mode,
+		CommitEvery: commitEvery, CacheMaxSizePerConnect: 4, MaxROConn: 4}, bl, applyEvents(false, nil), applyEvents(true, nil))
+}
+
+// childMain: -arg=dir|wait|firstID|seed|commitEveryMs . Runs until it is killed.
+func childMain(h *verifx.H) {
+	a := strings.Split(h.Arg, "|")
+	if len(a) != 5 {
+		os.Exit(3)
+	}
+	dir := a[0]
+	wait := a[1] == "1"
+	first, _ := strconv.Atoi(a[2])
+	seed, _ := strconv.ParseUint(a[3], 10, 64)
+	ce, _ := strconv.Atoi(a[4])
+	e, err := openReal(dir, wait, time.Duration(ce)*time.Millisecond)
+	if err != nil {
+		fmt.Fprintf(os.Stdout, "E %v\n", strings.ReplaceAll(err.Error(), "\n", " "))
+		os.Exit(4)
+	}
+	var outMu sync.Mutex
+	say := func(format string, args ...any) {
+		b := []byte(fmt.Sprintf(format, args...))
+		outMu.Lock()
+		_, _ = os.Stdout.Write(b)
+		outMu.Unlock()
+	}
+	say("R %d\n", e.VerifDBOffset())
+	var idMu sync.Mutex
+	next := first
+	newID := func() int { idMu.Lock(); defer idMu.Unlock(); next++; return next }
+	for w := 0; w < 3; w++ {
+		go func(w int) {
+			r := verifx.NewRng(seed*977 + uint64(w) + 1)
+			st := &stepper{}
+			for {
+				id := newID()
+				ln := 12 + r.Intn(8)
+				if r.Chance(1, 5) {
+					ln = 12 + r.Intn(3000)
+				}
+				k := kOK
+				switch r.Intn(12) {
+				case 0:
+					k = kCbFail
+				case 1:
+					k = kSQLFail
+				}
+				err := e.Do(context.Background(), "w", st.callback(id, ln, k))
+				switch {
+				case k == kOK && err == nil && wait:
+					say("A %d\n", id)
+				case k == kOK && err == nil:
+					say("a %d\n", id)
+				case k != kOK && err != nil:
+					say("F %d\n", id)
+				case k != kOK:
+					say("X %d\n", id) // a failing callback reported success
+				default:
+					say("N %d\n", id) // write refused (engine error); nothing is claimed about it
+				}
+				if r.Chance(1, 3) {
+					time.Sleep(time.Duration(r.Intn(300)) * time.Microsecond)
+				}
+			}
+		}(w)
+	}
+	for v := 0; v < 2; v++ {
+		go func(v int) {
+			r := verifx.NewRng(seed*1013 + uint64(v) + 7)
+			for {
+				var rows []int
+				var off int64
+				err := e.View(context.Background(), "v", func(c sqlite.Conn) error {
+					var err error
+					rows, off, err = readState(c)
+					return err
+				})
+				if err == nil {
+					sum := 0
+					for _, x := range rows {
+						sum += x
+					}
+					say("V %d %d %d\n", off, len(rows), sum)
+				}
+				time.Sleep(time.Duration(500+r.Intn(3000)) * time.Microsecond)
+			}
+		}(v)
+	}
+	time.Sleep(20 * time.Second) // the parent kills us long before
+	os.Exit(5)
+}
+
+// recEngine records what a binlog contains (used with the repo's own fsbinlog reader, ReadAndExit).
+type recEngine struct {
+	pos     int64
+	entries []entry
+}
+
+func (r *recEngine) Apply(payload []byte) (int64, error) {
+	start := r.pos
+	n, err := applyEvents(true, nil)(sqlite.Conn{}, r.pos, payload)
+	b := payload[:n]
+	for len(b) > 0 {
+		id := int(binary.LittleEndian.Uint32(b[4:]))
+		l := pad4(12 + int(binary.LittleEndian.Uint32(b[8:])))
+		start += int64(l)
+		r.entries = append(r.entries, entry{ev: true, id: id, raw: b[:l], end: start})
+		b = b[l:]
+	}
+	r.pos += int64(n)
+	return r.pos, err
+}
+func (r *recEngine) Skip(n int64) (int64, error) {
+	r.pos += n
+	r.entries = append(r.entries, entry{raw: make([]byte, n), end: r.pos})
+	return r.pos, nil
+}
+func (r *recEngine) Commit(int64, []byte, int64) error       { return nil }
+func (r *recEngine) Revert(int64) (bool, error)              { return false, nil }
+func (r *recEngine) ChangeRole(binlog.ChangeRoleInfo) error  { return nil }
+func (r *recEngine) StartReindex(binlog.ReindexOperator)     {}
+func (r *recEngine) Split(int64, string) bool                { return false }
+func (r *recEngine) Shutdown()                               {}
+
+func parseBinlog(dir string) ([]entry, int64, error) {
+	bl, err := fsbinlog.NewFsBinlog(nil, fsOptions(dir, true))
+	if err != nil {
+		return nil, 0, err
+	}
+	rec := &recEngine{}
+	if err := bl.Run(0, nil, nil, rec); err != nil {
+		return rec.entries, rec.pos, err
+	}
+	return rec.entries, rec.pos, nil
+}
+
+func seqHash(ids []int) uint64 {
+	h := uint64(0)
+	for _, x := range ids {
+		h = (h*1000003 + uint64(x)) % 2147483647
+	}
+	return h
+}
+
+func runCrashCase(h *verifx.H, ci int, r *verifx.Rng) {
+	dir := filepath.Join(diskScratch, fmt.Sprintf("k%d-%d-%d", os.Getpid(), h.Seed, ci))
+	_ = os.RemoveAll(dir)
+	if err := os.MkdirAll(dir, 0o755); err != nil {
+		h.Obs("setup-error")
+		return
+	}
+	defer os.RemoveAll(dir)
+	wait := !r.Chance(1, 4)
+	rounds := r.Range(2, 3)
+	firstID := 0
+	ackedAll := map[int]bool{}
+	failedAll := map[int]bool{}
+	w := 0
+	if wait {
+		w = 1
+	}
+	h.Stat(fmt.Sprintf("kill.cases.wait%d", w), 1)
+	for round := 0; round < rounds; round++ {
+		ce := []int{5, 20, 60}[r.Intn(3)]
+		delay := time.Duration(r.Range(2, 350)) * time.Millisecond
+		if r.Chance(1, 4) { // around the commit timer
+			delay = time.Duration(ce*r.Range(1, 4))*time.Millisecond + time.Duration(r.Range(-2000, 2000))*time.Microsecond
+		}
+		cmd := exec.Command(os.Args[0], "-mode=child", fmt.Sprintf("-arg=%s|%d|%d|%d|%d", dir, w, firstID, r.U64()%1000000, ce))
+		out, err := cmd.StdoutPipe()
+		if err != nil {
+			h.Obs("setup-error")
+			return
+		}
+		cmd.Stderr = nil
+		if err := cmd.Start(); err != nil {
+			h.Obs("setup-error")
+			return
+		}
+		type line struct{ s string }
+		ready := make(chan struct{})
+		var lines []string
+		done := make(chan struct{})
+		go func() {
+			sc := bufio.NewScanner(out)
+			first := true
+			for sc.Scan() {
+				t := sc.Text()
+				if first && (strings.HasPrefix(t, "R ") || strings.HasPrefix(t, "E ")) {
+					first = false
+					lines = append(lines, t)
+					close(ready)
+					continue
+				}
+				lines = append(lines, t)
+			}
+			if first {
+				close(ready)
+			}
+			close(done)
+		}()
+		select {
+		case <-ready:
+		case <-time.After(60 * time.Second):
+		}
+		time.Sleep(delay)
+		_ = cmd.Process.Signal(syscall.SIGKILL)
+		<-done
+		_ = cmd.Wait()
+		h.Stat("kill.kills", 1)
+		if len(lines) == 0 || !strings.HasPrefix(lines[0], "R ") {
+			msg := "no output"
+			if len(lines) > 0 {
+				msg = lines[0]
+			}
+			h.Op("child %d", round)
+			h.Obs("child-failed")
+			h.Viol("restart-failed", "child engine did not open in round %d: %s", round, msg)
+			return
+		}
+		type view struct{ off, n, sum int }
+		var views []view
+		nAck, nFail := 0, 0
+		for _, t := range lines[1:] {
+			f := strings.Fields(t)
+			if len(f) < 2 {
+				continue
+			}
+			id, _ := strconv.Atoi(f[1])
+			switch f[0] {
+			case "A":
+				ackedAll[id] = true
+				nAck++
+			case "F":
+				failedAll[id] = true
+				nFail++
+			case "X":
+				h.Viol("failed-do-reported-ok", "Do with a failing callback returned nil (id %d)", id)
+			case "V":
+				if len(f) == 4 {
+					n, _ := strconv.Atoi(f[2])
+					s, _ := strconv.Atoi(f[3])
+					views = append(views, view{id, n, s})
+				}
+			}
+			if id > firstID && f[0] != "V" {
+				firstID = id
+			}
+		}
+		firstID += 10
+		h.Stat("kill.acks", int64(nAck))
+		h.Stat("kill.failed-callbacks", int64(nFail))
+		h.Stat("kill.views", int64(len(views)))
+		// ---- what is on disk
+		if st, err := os.Stat(filepath.Join(dir, "db-journal")); err == nil && st.Size() > 0 {
+			h.Stat("kill.journal-rolled-back-on-recovery", 1)
+		}
+		entries, end, perr := parseBinlog(dir)
+		if perr != nil {
+			h.Op("binlog %d", round)
+			h.Obs("unreadable")
+			h.Viol("binlog-unreadable", "fsbinlog cannot re-read its own files after the kill: %v", perr)
+			return
+		}
+		m := &mockBinlog{entries: entries, length: end}
+		peek := filepath.Join(dir, "peek")
+		_ = os.RemoveAll(peek)
+		_ = os.MkdirAll(peek, 0o755)
+		for _, suf := range []string{"", "-journal", "-wal", "-wal2"} {
+			if _, err := os.Stat(filepath.Join(dir, "db") + suf); err == nil {
+				_ = copyFile(filepath.Join(dir, "db")+suf, filepath.Join(peek, "db")+suf)
+			}
+		}
+		var ir []int
+		var ioff int64
+		if err := sqlite.VerifPeek(filepath.Join(peek, "db"), func(c sqlite.Conn) error {
+			var err error
+			ir, ioff, err = readState(c)
+			return err
+		}); err != nil {
+			h.Op("image %d", round)
+			h.Obs("unreadable")
+			h.Viol("db-unreadable", "SQLite cannot open the database after the kill: %v", err)
+			return
+		}
+		if !m.isBoundary(ioff) || !eq(ir, m.evsUpTo(ioff)) {
+			h.Viol("db-not-prefix", "after kill the database holds %d rows (hash %d) with stored offset %d; the binlog prefix up to it holds %d events (hash %d)",
+				len(ir), seqHash(ir), ioff, len(m.evsUpTo(ioff)), seqHash(m.evsUpTo(ioff)))
+		}
+		if ioff > end {
+			h.Viol("db-ahead-of-binlog", "after kill the database has offset %d but the binlog ends at %d", ioff, end)
+		}
+		for _, v := range views {
+			want := m.evsUpTo(int64(v.off))
+			sum := 0
+			for _, x := range want {
+				sum += x
+			}
+			if int64(v.off) > end || !m.isBoundary(int64(v.off)) || len(want) != v.n || sum != v.sum {
+				h.Viol("view-not-prefix", "a reader saw offset %d with %d rows (sum %d); the binlog (ends at %d) has %d events (sum %d) up to that offset", v.off, v.n, v.sum, end, len(want), sum)
+				break
+			}
+		}
+		if ioff < end {
+			h.NonTrivial("replayed-after-kill")
+		}
+		for _, e := range entries {
+			if !e.ev && len(e.raw) == 20 {
+				h.Stat("kill.crc-records", 1)
+			}
+		}
+		// ---- restart on the real files
+		h.Op("recover %s %d %s", verifx.List(ir), ioff, descr(entries))
+		e, err := openReal(dir, true, time.Hour)
+		if err != nil {
+			h.Obs("open-error")
+			h.Viol("restart-failed", "engine did not reopen after the kill (db offset %d, binlog end %d): %v", ioff, end, err)
+			return
+		}
+		var tr []int
+		var toff int64
+		_ = e.VerifReadTx(func(c sqlite.Conn) error { tr, toff, _ = readState(c); return nil })
+		h.Obs("rows=%s off=%d dbo=%d left=0", verifx.List(tr), toff, e.VerifDBOffset())
+		all := m.evsUpTo(end)
+		if !eq(tr, all) {
+			h.Viol("restart-missing-events", "after restart the engine holds %d rows (hash %d); the durable binlog holds %d events (hash %d)", len(tr), seqHash(tr), len(all), seqHash(all))
+		}
+		have := map[int]bool{}
+		for _, id := range tr {
+			have[id] = true
+		}
+		for id := range ackedAll {
+			if !have[id] {
+				h.Viol("acked-lost", "write %d was acknowledged in wait-for-commit mode but is missing after kill+restart", id)
+				break
+			}
+		}
+		for id := range failedAll {
+			if have[id] {
+				h.Viol("failed-do-left-db-change", "Do %d returned an error but its row is in the database after restart", id)
+				break
+			}
+		}
+		// the engine must be writable again (its offset is the binlog writer's position)
+		wid := firstID
+		firstID += 10
+		st := &stepper{}
+		ctx, cancel := context.WithTimeout(context.Background(), 30*time.Second)
+		werr := e.Do(ctx, "w", st.callback(wid, 16, kOK))
+		cancel()
+		if werr != nil {
+			h.Viol("restart-not-writable", "first write after restart failed: %v", werr)
+		} else {
+			ackedAll[wid] = true
+		}
+		if r.Bool() {
+			ctx, cancel := context.WithTimeout(context.Background(), 30*time.Second)
+			_ = e.Close(ctx)
+			cancel()
+			h.Stat("kill.graceful-close-between", 1)
+		} else {
+			e.VerifAbandon()
+		}
+	}
+}
